@@ -32,6 +32,13 @@ class Ctx:
     # rules that are ABOUT state a change introduces (memos, caches, stale values, shared tables, deferred steps): their evidence names new storage by design
     _STATE_RULES = ('|stale|', 'memo', '|cache', 'cache-', '|slot', 'lazy-generator', 'late-binding', '|discarded|', '|shared', 'C18.', '|one-shot|', '|aliased|', '|state|', '|clock', 'neg-cache', '|stateless', '|straight')
 
+    @staticmethod
+    def _unclipped(text):
+        # evidence quoted at a readable length (fmt(x)[:200]) is judged on all of what it was cut from
+        from .terms import FULL
+        extra = [full for clipped, full in FULL.items() if clipped in text]
+        return text if not extra else text + ' ' + ' '.join(extra)
+
     def violation(self, rule, instance, where=None, detail=None, key=None):
         # (a rule that followed every callee on the path at hand and found no unread call says so: 'READ: ...' - absence is then a finding, not a blind spot)
         read_all = isinstance(detail, str) and detail.startswith('READ: ')
@@ -46,7 +53,7 @@ class Ctx:
         k_ = '%s|%s' % (rule, key or '')
         if new and not any(s_ in k_ for s_ in self._STATE_RULES):
             import re
-            text = '%s %s' % (instance, detail if detail is not None else '')
+            text = self._unclipped('%s %s' % (instance, detail if detail is not None else ''))
             hit = sorted((set(re.findall(r'\.(_[A-Za-z]\w*)', text)) | set(re.findall(r"'(_[A-Za-z]\w*)'", text))) & new)
             if hit:
                 self._rec('UNDECIDED', rule, instance, where, 'the evidence reads storage this tree introduces (%s), which the rule does not relate to the fields it speaks about: %s'
@@ -59,7 +66,7 @@ class Ctx:
                 newdefs = {}
             if newdefs and not read_all:
                 import re
-                text = '%s %s' % (instance, detail if detail is not None else '')
+                text = self._unclipped('%s %s' % (instance, detail if detail is not None else ''))
                 if rule in ('C15.S1', 'C01.S3b'):
                     # path rules with every callee followed: functions are named as the PLACES of writes and guards; only the refusing site itself counts
                     text = str(instance).split(' [')[0]
